@@ -620,9 +620,10 @@ class TempoBackend(BaseTempoBackend):
         """
         ToDo
         """
-        self._step += 1
-        prop_1, prop_2 = self._propagators(self._step - 1)
-        self._state = self.compute_system_step(self._step, prop_1, prop_2)
+        next_step = self._step + 1
+        prop_1, prop_2 = self._propagators(self._step)
+        self._state = self.compute_system_step(next_step, prop_1, prop_2)
+        self._step = next_step
         return self._step, copy(self._state)
 
 
